@@ -35,8 +35,7 @@ EXPLANATION = ("theorems over Model/Linker + Spec/Link for all histories; the mo
 ASSUMPTIONS = ["linked banks below 2 GiB (int offset in get_seq_data), MDS files below 4 GiB",
                "\"C\" locale character classes; bytes >= 0x80 in names are dropped (glibc tables)",
                "binary32 rounding of rate/2187.5 never crosses a rounding boundary for integer rates (checked on every boundary rate)",
-               "partial: PCM headers with a non-zero start offset are excluded from the PCM theorems (known finding D11)",
-               "partial: the history theorems assume at most 65536 sample headers in the wave bank (uint16_t offset = add_sample(..) in add_song)"]
+               "partial: PCM headers with a non-zero start offset are excluded from the PCM theorems (known finding D11)"]
 TRUSTED = ["Spec/Link.lean (MDS reader, bank resolver, group symbol and order, header reader)"]
 TECHNIQUE = "Lean 4 proof (invariant over linker histories by induction on the operation list, refinement of the chunk walk to the spec reader, layout lemmas, fuel bound for unique_string) + differential correspondence model<->mdsdrv.cpp + spec resolver on the real output"
 LEVEL_TEXT = ("Machine-checked theorems over a Lean model of MDSDRV_Linker: add_unique_data stores identical data once and never merges "
@@ -51,7 +50,7 @@ LEVEL_TEXT = ("Machine-checked theorems over a Lean model of MDSDRV_Linker: add_
               "sample's bytes inside the PCM bank returned, with the rate's pitch code, never crossing a bank boundary; later songs never "
               "change what earlier entries resolve to. The linker's chunk walk and the spec's own MDS reader are proved to agree on every "
               "file the spec reader accepts, and add_song is proved to be the fold over exactly those entries. The history theorems are "
-              "partial: PCM start offset 0 (known finding D11) and at most 65536 sample headers (uint16_t index in add_song).")
+              "partial: their one extra hypothesis is PCM start offset 0 (known finding D11).")
 LEVEL_NOTE = ("Trusted: Lean kernel; Model/Linker.lean (+ Model/Riff, Model/Wave), tied to mdsdrv.cpp by differential testing only; "
               "Spec/Link.lean; the converter is not modelled here (its real output is the input). Not proved, decided per case by the "
               "oracle: that the executable resolver (LinkSpec.resolveBank / resolveHeaders: group order of the songs, span and area "
